@@ -30,7 +30,7 @@ RULE = ("each run draws capacity 1-12, a refill rate from {0.005..50}/s, 1-5 pee
         "bound over the admitted history. distinct = distinct (config, decision-vector, eviction "
         "pattern) signatures; non-trivial = at least one refusal AND (an eviction or a concurrent "
         "burst or a second address) occurred")
-PROBES = ["peer_reset_after_admission", "requests_with_varying_client_certificate", "many_address_flood", "config_from_toml", "cleanup_race_scenario", "eviction_happened", "refusal", "slow_refill_run", "concurrent_burst", "wire_mode",
+PROBES = ["wall_clock_stepped_during_the_run", "peer_reset_after_admission", "requests_with_varying_client_certificate", "many_address_flood", "config_from_toml", "cleanup_race_scenario", "eviction_happened", "refusal", "slow_refill_run", "concurrent_burst", "wire_mode",
           "idle_ge_600_with_partial_bucket"]
 COMPONENTS = {
     "real": ["nauyaca.server.middleware.RateLimiter/TokenBucket/MiddlewareChain",
@@ -159,6 +159,12 @@ def run_one(ch):
 
     sim = Sim(ch)
     net = sim.net
+    if ch.chance("wallstep", 0.15):
+        # the wall clock is stepped during the history: allowances follow the monotonic clock
+        for _ in range(1 + ch.choose("wallstep.n", 3)):
+            net.step_wall_clock(ch.pick("wallstep.t", [0.5, 5.0, 100.0, 700.0, 2000.0]),
+                                ch.pick("wallstep.d", [-3600.0, -5.0, 5.0, 3600.0, 86400.0]))
+        res.stats["wall_clock_stepped_during_the_run"] += 1
     model = Model(cap, rate)
     decisions = []     # (t, ip, allow, response)
     st = {"evictions": 0, "burst": False, "idle_partial": False, "leaver": False, "fp": False}
